@@ -240,3 +240,28 @@ def run_lib_sessions(programs, legacy=True, secure=True, fuel=300000):
     if resp[0] != "(libsetup ok)":
         return None, resp[0]
     return [parse_model_session(r)[0] for r in resp[1:]], None
+
+
+_const_re = []
+
+
+def uses_constant_native(src):
+    """does the program mention a constant bound through bind_native (E, PI, PS, FS, …) or a bundled function whose source uses one?
+    The evaluator model binds every known native name as a FUNCTION value, so it has no answer for those programs: the lib-session
+    correspondences skip them."""
+    import re
+    if not _const_re:
+        from harness.extract import natives
+        tab = natives.extract()
+        consts = [k for k, v in tab["natives"].items() if v["class"] is None]
+        names = set(consts)
+        moddir = os.path.join(core.REPO, "src", "ckl", "modules")
+        for n in sorted(os.listdir(moddir)):
+            if n.endswith(".ckl"):
+                text = open(os.path.join(moddir, n), encoding="utf-8").read()
+                for m in re.finditer(r"^def (\w+)\(.*?(?=^def |\Z)", text, flags=re.S | re.M):
+                    body = m.group(0).split("\n", 1)[-1]
+                    if any(re.search(r"\b" + re.escape(c) + r"\b", body) for c in consts):
+                        names.add(m.group(1))
+        _const_re.append(re.compile(r"\b(" + "|".join(sorted(re.escape(x) for x in names)) + r")\b"))
+    return _const_re[0].search(src) is not None
